@@ -38,6 +38,18 @@ fn int_profile() -> Profile {
 fn shared_profile() -> Profile {
     let mut p = Profile::full(Ev::F64);
     p.lits = ["0", "1", "2", "3", "5", "7", "10", "12", "100", "0.5", "1.5", "2.5", ".25", "3.", "0.1", "4", "6", "20", "1000000", "8"].iter().map(|s| s.to_string()).collect();
+    // literals as people write constants, not as Display prints doubles: 15..30 fractional digits with few significant
+    // ones, long integer parts with a fraction, more digits than a double holds (each evaluator has its own literal reader)
+    for frac in 14..=30usize {
+        for d in ["242631023867", "66743", "16021766340", "299792458", "137035999084", "91093837015", "2426310238671234", "7", "125", "31415926535897932"] {
+            if d.len() <= frac {
+                p.lits.push(format!("0.{}{}", "0".repeat(frac - d.len()), d));
+            }
+        }
+    }
+    for l in ["6.02214076", "299792458.0", "0.000000000066743", "1.602176634", "12345678.87654321", "9007199254740993.5", "123456789012345678.9", "0.1000000000000000055511151231257827", "1.7976931348623157", "4.9406564584124654", "2.2250738585072014"] {
+        p.lits.push(l.to_string());
+    }
     p.max_depth = 5;
     p
 }
